@@ -1,6 +1,6 @@
 (* C05 — Version ranges mean what they say; conflict means a shared version.
    Statements only; each closed by [exact] of a lemma proved in theories/. *)
-From DS Require Import Base Versions VersionsProofs Semver SemverProofs Router RouterSpec RouterProofs Pct Utf8 PathNorm Route Pipeline PipelineProofs.
+From DS Require Import Base Versions VersionsProofs Semver SemverProofs Router RouterSpec RouterProofs Pct Utf8 PathNorm Route Pipeline PipelineProofs VersionsEmbed RankEmbed.
 
 Section C05.
   (* any version type whose comparison is a total order with a least element:
@@ -105,6 +105,34 @@ Section C05.
   Proof. exact (handle_unversioned_ignores_header V cmp parse). Qed.
 End C05.
 
+(* 7. ranges see versions only through comparisons with their own bounds:
+   matching, overlap and the header policy are invariant under any map that
+   preserves the comparisons in which at least one side is a known version (P),
+   when every bound is known.  Hence deciding the range logic over a finite
+   chain decides it for all versions that compare with the chain the same way;
+   and ranking against a chain (2 * #{c < v} + [v in chain]) is such a map. *)
+Theorem C05_matches_invariant : forall V W cmpV cmpW (f : V -> W) (P : V -> Prop),
+  (forall a b, P a \/ P b -> cmpW (f a) (f b) = cmpV a b) ->
+  forall r ov, bounds V P r -> vmatches W cmpW (map_range f r) (option_map f ov) = vmatches V cmpV r ov.
+Proof. exact vmatches_embed. Qed.
+
+Theorem C05_overlaps_invariant : forall V W cmpV cmpW (f : V -> W) (P : V -> Prop),
+  (forall a b, P a \/ P b -> cmpW (f a) (f b) = cmpV a b) ->
+  forall r1 r2, bounds V P r1 -> bounds V P r2 ->
+  overlaps W cmpW (map_range f r1) (map_range f r2) = overlaps V cmpV r1 r2.
+Proof. exact overlaps_embed. Qed.
+
+Theorem C05_header_policy_invariant : forall V W cmpV cmpW (f : V -> W) (P : V -> Prop),
+  (forall a b, P a \/ P b -> cmpW (f a) (f b) = cmpV a b) ->
+  forall (parse : str -> option V) max h, P max ->
+  extract_version W cmpW (fun s => option_map f (parse s)) (f max) h =
+  match extract_version V cmpV parse max h with Ok v => Ok (f v) | Err c => Err c end.
+Proof. exact extract_version_embed. Qed.
+
+Theorem C05_rank_embeds : forall V cmp bot, total_order V cmp bot ->
+  forall chain a b, In a chain \/ In b chain -> N.compare (rank V cmp chain a) (rank V cmp chain b) = cmp a b.
+Proof. exact rank_embeds. Qed.
+
 (* non-vacuity: the hypotheses hold of N.compare with least element 0, and a
    concrete table of ranges exercises every constructor *)
 Example C05_instance_N : total_order N N.compare 0.
@@ -170,3 +198,7 @@ Print Assumptions C05_pipeline_bad_version_iff.
 Print Assumptions C05_pipeline_refused_headers.
 Print Assumptions C05_pipeline_invoke_version.
 Print Assumptions C05_pipeline_unversioned_ignores_header.
+Print Assumptions C05_matches_invariant.
+Print Assumptions C05_overlaps_invariant.
+Print Assumptions C05_header_policy_invariant.
+Print Assumptions C05_rank_embeds.
